@@ -31,7 +31,7 @@ ASSUMPTIONS = [
 ]
 FLOORS = {
     "quick": {"eval:line_coordinates": 20000, "eval:grid_coordinates": 1500, "eval:spacing_to_size": 20000,
-              "eval:profile_coordinates": 100, "eval:shape_to_spacing": 100, "distinct_nontrivial": 5000},
+              "eval:profile_coordinates": 100, "eval:shape_to_spacing": 100, "distinct_nontrivial": 5000, "class:long_line": 100, "class:long_line_50k": 15},
     "thorough": {"eval:line_coordinates": 200000, "eval:grid_coordinates": 10000, "distinct_nontrivial": 50000},
 }
 JOBS = {"quick": 1, "thorough": 16}
@@ -41,8 +41,8 @@ STARTS = [Fraction(-2), Fraction(-1, 2), Fraction(0), Fraction(1, 8), Fraction(3
 
 def plan(tier):
     if tier == "quick":
-        return collections.OrderedDict(lattice=41, random_line=40, grid=40, nested=12, profile=10, shape_spacing=10)
-    return collections.OrderedDict(lattice=81, sizes=12, random_line=800, grid=600, nested=120, profile=100, shape_spacing=100)
+        return collections.OrderedDict(lattice=41, random_line=40, long_line=30, grid=40, nested=12, profile=10, shape_spacing=10)
+    return collections.OrderedDict(lattice=81, sizes=12, random_line=800, long_line=600, grid=600, nested=120, profile=100, shape_spacing=100)
 
 
 # ----------------------------------------------------------------------
@@ -74,6 +74,9 @@ def install(tap, run):
             return
         a = ev.args
         start, stop, size, spacing = a["start"], a["stop"], a["size"], a["spacing"]
+        if any(isinstance(v, (np.float32, np.float16)) for v in (start, stop, spacing)):
+            run.count("skipped:line_single_precision_arguments")  # numpy then builds the line in single precision
+            return
         if not finite(start, stop, spacing) or (spacing is not None and not float(spacing) > 0):
             run.count("skipped:line_nonfinite_or_nonpositive")
             return
@@ -123,6 +126,9 @@ def install(tap, run):
         a = ev.args
         region, shape, spacing = a["region"], a["shape"], a["spacing"]
         if not finite(list(region), spacing):
+            return
+        if any(isinstance(v, (np.float32, np.float16)) for v in list(region) + list(np.atleast_1d(spacing) if spacing is not None else [])):
+            run.count("skipped:grid_single_precision_arguments")
             return
         res = ev.result
         problems = []
@@ -327,6 +333,26 @@ def run_case(run, tap, stream, index, rng):
             size = int(rng.integers(1, 41))
             vc.line_coordinates(start, stop, size=size, pixel_register=pixel)
         run.sample("random_line", {"start": start, "stop": stop, "spacing": spacing, "adjust": adjust, "pixel_register": pixel, "n_nodes": int(vals.size)})
+    elif stream == "long_line":
+        # many intervals: relative tolerances that are harmless for ten nodes become whole spacings for 1e4..3e5 nodes
+        for _ in range(4):
+            n = int(10 ** rng.uniform(3, 5.5))
+            spacing = float(rng.choice([1.0, 0.25, 0.1, 10 ** rng.uniform(-3, 3)]))
+            frac = float(rng.choice([0.0, 1e-9, 1e-6, 1e-4, 0.015, 0.25, 0.4, 0.499999, 0.5, 0.500001, 0.75, 0.999]))
+            start = float(rng.choice([0.0, -50.0, rng.normal() * 1e3]))
+            stop = start + (n + frac) * spacing
+            adjust = str(rng.choice(["spacing", "region"]))
+            pixel = bool(rng.random() < 0.5)
+            vals = vc.line_coordinates(start, stop, spacing=spacing, adjust=adjust, pixel_register=pixel)
+            vc.spacing_to_size(start, stop, spacing, "region")
+            run.count("class:long_line")
+            if n >= 50000:
+                run.count("class:long_line_50k")
+        # a long axis inside a grid (the other axis short)
+        n = int(10 ** rng.uniform(3, 4.7))
+        region = [0.0, n + float(rng.choice([0.015, 0.4, 0.25])), -50.0, 50.3]
+        vc.grid_coordinates(region, spacing=(0.25 * 10, 1.0), adjust="region", meshgrid=bool(rng.random() < 0.3))
+        run.sample("long_line", {"start": start, "stop": stop, "spacing": spacing, "adjust": adjust, "pixel_register": pixel, "n_nodes": int(vals.size)})
     elif stream == "grid":
         for _ in range(40):
             region = _random_region(rng)
